@@ -4,5 +4,5 @@ import json, sys
 sid, prop, change, needs, ran = sys.argv[1:6]
 json.dump({"property": prop, "change": change, "needs_to_manifest": needs,
            "verified": "tools/verify_seed.sh: existing suite passes with the change, demo.rs fails with it and passes without it (scratch worktree)",
-           "ran": ran, "origin": "independent sub-agent given only the property text and a scratch worktree (round 3: told which kinds of change earlier rounds produced and asked for a different kind)"},
+           "ran": ran, "origin": "independent sub-agent given only the property text and a scratch worktree (later rounds: told which kinds of change earlier rounds produced and asked for a different kind, round 4 also pointed at less-travelled corners)"},
           open(f"/verif/seeded/{sid}/meta.json", "w"), indent=1)
